@@ -173,6 +173,21 @@ def _is_generator_expression_part(node, version):
     return False
 
 
+def _is_in_local_annotation(node):
+    """
+    The annotations of annotated assignments in functions are never evaluated
+    and therefore not checked by Python.
+    """
+    child = node
+    node = node.parent
+    while node is not None and node.type not in ('funcdef', 'classdef', 'file_input'):
+        if node.type == 'annassign' and child is node.children[1]:
+            scope = node.search_ancestor('funcdef', 'classdef', 'file_input')
+            return scope is not None and scope.type == 'funcdef'
+        child, node = node, node.parent
+    return False
+
+
 def _is_in_lambda_body(node):
     """
     A lambda is a scope of its own (other than its defaults), but not a
@@ -650,6 +665,8 @@ class _AwaitOutsideAsync(SyntaxRule):
 
     def is_issue(self, leaf):
         if self._normalizer.context.is_async_funcdef() and not _is_in_lambda_body(leaf):
+            return False
+        if self._normalizer.version >= (3, 7) and _is_in_local_annotation(leaf):
             return False
         # An await makes a generator expression asynchronous, which is fine.
         return not (self._normalizer.version >= (3, 7)
@@ -1319,7 +1336,8 @@ class _CompForRule(_CheckAssignmentRule):
                          and not _is_in_lambda_body(node)):
             # Asynchronous generator expressions are fine everywhere.
             return not (self._normalizer.version >= (3, 7)
-                        and _is_generator_expression_part(node, self._normalizer.version))
+                        and (_is_generator_expression_part(node, self._normalizer.version)
+                             or _is_in_local_annotation(node)))
         return False
 
 
